@@ -15,6 +15,7 @@ bodies, call f, map with f, redefine, read), every call with budgets K-1, K, K+1
 import itertools
 
 from ..core import runner, snapshot, opwrap
+from ..model import refparse, refeval as M
 from . import c09
 
 ID = 'C01'
@@ -166,6 +167,12 @@ DRIVERS = [
     ('ast-noop', 'n0; t(1)', {'n0': ('noop', None, None)}, False),
     ('ast-two', 'g2(g3(1))', {'g2': ('lambda', ['v'], 't(v)'), 'g3': ('lambda', ['v'], 't(v) + 1'), 'c0': ('value', None, '5')}, False),
     ('ast-apply', 'apply(g2, 1) + swallow(g2, 2)', {'g2': ('lambda', ['v'], 't(v); t(v + 1); v')}, True),
+    ('const-lambda-map', 'map(l, v => 0)', None, False),
+    ('const-lambda-sorted', 'sorted(l, k => 1)', None, False),
+    ('const-lambda-reduce', 'reduce(l, (a, b) => 0)', None, False),
+    ('const-lambda-call', 'q = v => None; q(1); q(2); w = v => "s"; w(0)', None, False),
+    ('const-lambda-filter', 'filter(l, v => True) + filter(l, v => False)', None, False),
+    ('filter-budget', 'l | filter(v => v > 1)', None, False),
     ('empty', '', None, False),
     ('comment', '# nothing', None, False),
     ('blank-lines', '\n\nt(1)\n\n', None, False),
@@ -185,6 +192,21 @@ def sweep(res, label, text, ast_spec, swallow, cached=False):
         res.violation(f'charged:{label}', 'the number of operations charged differs from the number of node evaluations performed',
                       dict(w, budget='unbounded', expected=f'{K} charged to one VM state', observed=f'charged {charged0}'))
     res.outcome(f'{label}:K={K}')
+    # where the reference interpreter defines the program (no host callbacks), its operation count is the yardstick:
+    # an evaluation that is skipped altogether (a "free" lambda body) is invisible to the tracer but not to the model
+    if not ast_spec and not any(x in text for x in ('t(', 'apply(', 'swallow(')):
+        m = refparse.parse(text)
+        if m[0] == 'ok':
+            D = M.Num.of_int
+            mach = M.Machine({'x': D(1), 'l': [D(1), D(2), D(3)], 'd': {'a': D(1), 'b': D(2)}, 'n': D(3)}, known_builtins=list(api.FUNCTIONS))
+            try:
+                mach.run(m[1])
+                res.count('model_counts_compared')
+                if mach.ops != K:
+                    res.violation(f'model-count:{label}', 'the evaluation performs fewer / more node evaluations than the semantics prescribe '
+                                  '(work done outside the counter)', dict(w, budget='unbounded', expected=f'{mach.ops} operations', observed=f'{K}'))
+            except Exception:  # noqa - undefined by the model
+                pass
     for N in list(range(1, K + 3)) + BIG:
         out, v, n, log, entered, charged = run(text, N, ast_spec, cached)
         res.count('evals')
@@ -216,7 +238,7 @@ def sweep(res, label, text, ast_spec, swallow, cached=False):
 
 # ------------------------------------------------------------------ histories
 
-HIST_CALLS = ['f = v => v + 1', 'f = v => t(v) + t(v) + v', 'f = v => map(l, w => w + v)', 'f(1)', 'f(2) + f(3)', 'map(l, f)',
+HIST_CALLS = ['nested("1 + 1"); f(1)', 'nested("f(1)") + f(2)', 'f = v => v + 1', 'f = v => t(v) + t(v) + v', 'f = v => map(l, w => w + v)', 'f(1)', 'f(2) + f(3)', 'map(l, f)',
               'n', 'g9 = f; g9(1)', 'apply(f, 1)', 'sorted(l, f)']
 
 
@@ -233,7 +255,9 @@ def run_hist_call(res, hist, budgets):
         def entered(self):
             return cur[0].entered if cur[0] else 0
     names = host_names(log, Proxy())
+    names['nested'] = lambda src: parser().eval(src, names, max_ops_evaluated=50)
     outs = []
+    earlier_states = []
     for prog, bud in zip(hist, budgets):
         cnt = Count()
         cur[0] = cnt
@@ -245,7 +269,9 @@ def run_hist_call(res, hist, budgets):
             o = 'limit'
         except Exception as e:  # noqa
             o = 'err:' + type(e).__name__
-        outs.append((o, cnt.entered))
+        stale = [st for st in cnt.states if any(st is e for e in earlier_states)]
+        earlier_states.extend(cnt.states)
+        outs.append((o, cnt.entered, bool(stale)))
         res.count('evals')
     return outs
 
@@ -270,6 +296,13 @@ def work(task):
         for hist in hists:
             base = run_hist_call(res, hist, [None] * len(hist))
             res.count('histories')
+            if any(o[2] for o in base):
+                res.violation('history:stale-vm-state', 'node evaluations of a call were charged to the VM state of an EARLIER eval call',
+                              {'history': hist, 'budget_of_last_call': None, 'K_of_last_call': None, 'expected': 'ok',
+                               'observed': 'a VM state created by an earlier call was used again'})
+                continue
+            if any('nested(' in h for h in hist):
+                continue        # K would mix the nodes of the nested call (its own budget) with the outer ones
             if any(o[0].startswith('err') for o in base[:-1]):
                 continue
             j = len(hist) - 1
@@ -281,7 +314,7 @@ def work(task):
                 if N < 1:
                     continue
                 outs = run_hist_call(res, hist, [None] * j + [N])
-                o, entered = outs[j]
+                o, entered = outs[j][0], outs[j][1]
                 want = 'ok' if N > Kj else 'limit'
                 if o != want:
                     defined_earlier = any(h.startswith('f =') for h in hist[:j]) and ('f' in hist[j] or 'g9' in hist[j])
